@@ -340,9 +340,10 @@ Definition send_message (s : st) (r : remote) (mtype : option Z) (tok : token) (
     then Ok (set_backlogs s1 (aset Z.eqb r (match alookup Z.eqb r (backlogs s1) with Some l => l ++ [(w, monitor)] | None => [(w, monitor)] end) (backlogs s1)), [])
     else Ok (_send_initially s1 r w (Some monitor)).
 
-(* _continue_backlog (messagemanager.py:287). The while loop re-reads self._backlogs[remote] in every round (KeyError
-   if a refused transmission inside the loop made dispatch_error drop it); fuel = rounds that can happen.
-   The boolean tells that an exception was raised (it is in the outputs as [Raised]) and aborts the caller. *)
+(* _continue_backlog (messagemanager.py:287). The while loop `while remote in self._backlogs and not any(exchange with remote)`
+   re-reads self._backlogs[remote] in every round; a refused release inside the loop makes dispatch_error drop the entry,
+   which ends the loop (messagemanager.py:305). fuel = rounds that can happen.
+   The boolean of _continue_backlog tells that an exception was raised (it is in the outputs as [Raised]) and aborts the caller. *)
 Fixpoint _continue_backlog_loop (fuel : nat) (s : st) (r : remote) : st * list output * bool :=
   match fuel with
   | O => (s, [], false)
@@ -350,14 +351,17 @@ Fixpoint _continue_backlog_loop (fuel : nat) (s : st) (r : remote) : st * list o
       match exchanges s with
       | None => (s, [], false)
       | Some ex =>
-          if has_exchange r ex then (s, [], false)
-          else match alookup Z.eqb r (backlogs s) with
-               | None => (s, [Raised KeyError], true)
-               | Some [] => (set_backlogs s (aremove Z.eqb r (backlogs s)), [], false)
-               | Some ((w, m) :: rest) =>
-                   let '(s1, o1) := _send_initially (set_backlogs s (aset Z.eqb r rest (backlogs s))) r w (Some m) in
-                   let '(s2, o2, x) := _continue_backlog_loop f s1 r in (s2, o1 ++ o2, x)
-               end
+          match alookup Z.eqb r (backlogs s) with
+          | None => (s, [], false)                       (* remote not in self._backlogs any more *)
+          | Some bl =>
+              if has_exchange r ex then (s, [], false)
+              else match bl with
+                   | [] => (set_backlogs s (aremove Z.eqb r (backlogs s)), [], false)
+                   | (w, m) :: rest =>
+                       let '(s1, o1) := _send_initially (set_backlogs s (aset Z.eqb r rest (backlogs s))) r w (Some m) in
+                       let '(s2, o2, x) := _continue_backlog_loop f s1 r in (s2, o1 ++ o2, x)
+                   end
+          end
       end
   end.
 Definition _continue_backlog (s : st) (r : remote) : st * list output * bool :=
@@ -466,15 +470,12 @@ Definition _retransmit (s : st) (r : remote) (mid : Z) : st * list output :=
       | Some e =>
           let s1 := set_exchanges s (Some (aremove rm_eqb (r, mid) ex)) in
           if ex_counter e <? 4 then                                        (* MAX_RETRANSMIT *)
-            let '(s2, o2) := _send_via_transport s1 r (ex_msg e) in
-            let e' := {| ex_monitor := ex_monitor e; ex_due := now s2 + 2 * ex_timeout e; ex_seq := seq s2;
+            let e' := {| ex_monitor := ex_monitor e; ex_due := now s1 + 2 * ex_timeout e; ex_seq := seq s1;
                          ex_timeout := 2 * ex_timeout e; ex_counter := ex_counter e + 1; ex_msg := ex_msg e |} in
-            (* the exchange is put back even when the transmission was refused and dispatch_error just dropped
-               everything for this remote *)
-            match exchanges s2 with
-            | Some ex2 => (set_seq (set_exchanges s2 (Some (aset rm_eqb (r, mid) e' ex2))) (seq s2 + 1), o2)
-            | None => (s2, o2 ++ [LoopExc TypeError])
-            end
+            (* the exchange is put back BEFORE the message is handed to the transport (messagemanager.py:345-353), so a
+               refused retransmission is ended by dispatch_error like any other exchange of that remote *)
+            let s2 := set_seq (set_exchanges s1 (Some (aset rm_eqb (r, mid) e' (aremove rm_eqb (r, mid) ex)))) (seq s1 + 1) in
+            _send_via_transport s2 r (ex_msg e)
           else if amem Z.eqb r (backlogs s1) then
             let s2 := set_backlogs s1 (aremove Z.eqb r (backlogs s1)) in
             tm_dispatch_error s2 (ENet ConRetransmitsExceeded) r
